@@ -299,6 +299,11 @@ type Disk struct {
 	// written to the named file in this boot (the bytes up to the limit reach
 	// the disk). Absent = never.
 	CrashAfter map[string]int
+	// CrashAfterTotal > 0: the process dies once this many bytes in total have been
+	// written to ANY file in this boot (so a writer that goes through a temporary
+	// file and renames it is torn just the same).
+	CrashAfterTotal int
+	writtenTotal    int
 
 	Writes map[string][]int // sizes of every write call per file, recorded
 }
@@ -315,6 +320,12 @@ func NewDisk() *Disk {
 		CrashAfter: map[string]int{},
 		Writes:     map[string][]int{},
 	}
+}
+
+// ArmCrash makes the process die after n more bytes written to any file (0 = disarm).
+func (d *Disk) ArmCrash(n int) {
+	d.CrashAfterTotal = n
+	d.writtenTotal = 0
 }
 
 // File stands in for *os.File in woven code.
@@ -370,6 +381,22 @@ func (f *File) Write(p []byte) (int, error) {
 	}
 	d := W.Disk
 	d.Writes[f.name] = append(d.Writes[f.name], len(p))
+	if d.CrashAfterTotal > 0 && d.writtenTotal+len(p) >= d.CrashAfterTotal {
+		take := d.CrashAfterTotal - d.writtenTotal
+		if take < 0 {
+			take = 0
+		}
+		if take > len(p) {
+			take = len(p)
+		}
+		f.store(p[:take])
+		f.written += take
+		d.writtenTotal += take
+		W.Stat("fault.crash-in-write")
+		W.Event("crash in write %s after %d bytes in this boot", f.name, d.writtenTotal)
+		panic(CrashPanic{Where: f.name})
+	}
+	d.writtenTotal += len(p)
 	if limit, ok := d.CrashAfter[f.name]; ok && f.written+len(p) >= limit {
 		take := limit - f.written
 		if take < 0 {
